@@ -1166,13 +1166,17 @@ def oracle_c10(ctx, focus):
             gl.append("gen\tcard\t%s\t%d\t0" % (lang, x))
         cards = _spec_cases(ctx, "c10p" + lang, gl)
         preqs, pmeta = [], []
+        # C10 is about context, not about the reading itself (that is C01): each side is compared with the
+        # implementation's own rewriting of that side alone.
+        alone = run_impl(ctx, "c10r" + lang, ["text\t%s\t%s\t%s" % (lang, THR0, esc(p1)) for (g1, p1, e1) in cards])
+        alone = {p1: unesc(o) for (g1, p1, e1), o in zip(cards, alone)}
         for (g1, p1, e1) in cards:
             for (g2, p2, e2) in cards:
                 if ctx.tier != "thorough" and not rng.chance(1, 3):
                     continue
                 p = rng.choice(puncts)
                 preqs.append("text\t%s\t%s\t%s" % (lang, THR0, esc(p1 + p + p2)))
-                pmeta.append((p1 + p + p2, unesc(e1) + p + unesc(e2)))
+                pmeta.append((p1 + p + p2, alone[p1] + p + alone[p2]))
         pouts = run_impl(ctx, "c10q" + lang, preqs)
         for r, o, (t, want) in zip(preqs, pouts, pmeta):
             n += 1
